@@ -346,15 +346,25 @@ pub fn one_run_tl(plan: &Plan, spawner: &ractor::thread_local::ThreadLocalActorS
             }
             // wait (real time, bounded) until the actor has dealt with it: handler finished, dropped, or actor gone
             let mut settled = !r.is_ok();
+            let mut since_taken = 0;
             for _ in 0..3000 {
                 all.extend(verif::take_events());
+                let sent_ok = all.iter().filter(|e| e.a == "obs.send" && e.d == 1).count();
                 let taken = all.iter().filter(|e| e.a == "port.msg" && e.obj == cell.get_id().pid()).count();
                 let exits = all.iter().filter(|e| e.a == "obs.cb_exit" && e.kv.iter().any(|(k, v)| k == "k" && *v == Val::S("handle".into()))).count();
                 let drops = all.iter().filter(|e| e.a == "decode.dropped" && e.obj == cell.get_id().pid()).count();
                 let dead = cell.get_status() == ActorStatus::Stopped && all.iter().any(|e| e.a == "guard.done" && e.obj == cell.get_id().pid());
-                if settled || dead || (taken >= 1 && exits + drops >= taken && taken == all.iter().filter(|e| e.a == "obs.send" && e.d == 1).count()) {
+                if settled || dead || (taken == sent_ok && exits + drops >= taken) {
                     settled = true;
                     break;
+                }
+                if taken == sent_ok {
+                    // picked, neither handled nor reported nor fatal: a silent drop; the pick and its outcome are one poll
+                    since_taken += 1;
+                    if since_taken > 40 && cell.get_status() == ActorStatus::Running {
+                        settled = true;
+                        break;
+                    }
                 }
                 tokio::time::sleep(std::time::Duration::from_millis(1)).await;
             }
